@@ -247,8 +247,22 @@ func TestC06_Decode(t *testing.T) { rapid.Check(t, propDecode) }
 func propEncode(t *rapid.T) {
 	pc := gen.Point(t, "pt")
 	p := lib.Pt(pc.P)
-	stat.Case("encode", []string{"pt:" + pc.Desc}, true, pc.P.Uncompressed(), func() any {
-		return map[string]any{"point": pc.P.String(), "from": pc.Desc}
+	// every representative of the point has the same encodings: besides the decoded (Z = 1) form, use
+	// representatives that library arithmetic produces -- P + O (Z = y for the complete formulas),
+	// (P + G) - G, 2P - P
+	rep := gen.Sampled([]string{"decoded", "plus-identity", "plus-identity", "plusG-minusG", "double-minus"}).Draw(t, "rep")
+	switch rep {
+	case "plus-identity":
+		p = secp256k1.NewIdentityPoint().Add(p, secp256k1.NewIdentityPoint())
+	case "plusG-minusG":
+		p = secp256k1.NewIdentityPoint().Add(p, secp256k1.NewGeneratorPoint())
+		p.Subtract(p, secp256k1.NewGeneratorPoint())
+	case "double-minus":
+		d := secp256k1.NewIdentityPoint().Double(p)
+		p = d.Subtract(d, p)
+	}
+	stat.Case("encode", []string{"pt:" + pc.Desc, "rep:" + rep}, true, append([]byte(rep), pc.P.Uncompressed()...), func() any {
+		return map[string]any{"point": pc.P.String(), "from": pc.Desc, "representative": rep}
 	})
 	c, u := p.CompressedBytes(), p.UncompressedBytes()
 	if !bytes.Equal(c, pc.P.Compressed()) || !bytes.Equal(u, pc.P.Uncompressed()) {
